@@ -221,6 +221,26 @@ end
     goes one level down, and there are at most 10 levels between two consumed tokens -/
 def fuelFor (ts : List (Token α)) : Nat := 16 * ts.length + 16
 
+/-- `MAX_EXPR_DEPTH` -/
+def maxExprDepth : Nat := 100
+
+/-- one step of `nesting_depth`; the state is `(groups, open, run, depth)` -/
+def nestingStep (s : List Nat × Nat × Nat × Nat) (t : Token α) : List Nat × Nat × Nat × Nat :=
+  let (groups, open_, run, depth) := s
+  let (groups, open_, run) : List Nat × Nat × Nat :=
+    match t with
+    | .sub => (groups, open_, run + 1)
+    | .openParen => ((run + 1) :: groups, open_ + (run + 1), 0)
+    | .closeParen => (groups.tail, open_ - groups.headD 0, 0)
+    | .number _ | .string _ | .var _ | .elref _ => (groups, open_, 0)
+    | _ => (groups, open_, run)
+  (groups, open_, run, Nat.max depth (open_ + run))
+
+/-- `nesting_depth`: an upper bound, from the tokens alone, on how deeply the descent nests — every `(`
+    stays open up to its `)`, together with the minus signs directly in front of it, and a run of minus
+    signs stays open up to the operand which follows it -/
+def nestingDepth (ts : List (Token α)) : Nat := (ts.foldl nestingStep ([], 0, 0, 0)).2.2.2
+
 /-- `evaluate_inner`: the whole token list must be consumed -/
 def evaluate (ck : List Str) (ts : List (Token α)) (st : σ) : Res (Value α × σ) :=
   match exprList o lk elref (fuelFor ts) ck false ts st with
@@ -236,10 +256,20 @@ variable {α σ : Type} (o : Ops α σ)
 /-- variables of the context: innermost first (`get_var` walks the scope stack from the top) -/
 abbrev Env := List (Str × Str)
 
-/-- `EvalState::lookup`, `n` = remaining variable-nesting depth -/
-def lookupN (env : Env) (elref : Str → Res α) : Nat → Lookup α σ
-  | 0, _, _, _ => .error .outOfFuel
-  | n + 1, v, ck, st =>
+/-- `EvalState::nested` + `evaluate_inner`: tokens evaluated at nesting depth `base` (zero, or that of
+    the expression containing the variable they are the value of). The depth the tokens themselves
+    reach is added before anything is parsed; past `MAX_EXPR_DEPTH` that is an error, otherwise the
+    variables met on the way are looked up one level further down. -/
+def evaluateAt (lkB : Nat → Lookup α σ) (elref : Str → Res α) (base : Nat) (ck : List Str)
+    (ts : List (Token α)) (st : σ) : Res (Value α × σ) :=
+  if base + nestingDepth ts > maxExprDepth then .error .depthLimit
+  else evaluate o (lkB (base + nestingDepth ts + 1)) elref ck ts st
+
+/-- `EvalState::lookup`, `n` = remaining variable-nesting depth (fuel), `base` = the nesting depth at
+    which the variable stands -/
+def lookupN (env : Env) (elref : Str → Res α) : Nat → Nat → Lookup α σ
+  | 0, _, _, _, _ => .error .outOfFuel
+  | n + 1, base, v, ck, st =>
     if ck.contains v then .error .circular
     else
       match assoc v env with
@@ -248,17 +278,17 @@ def lookupN (env : Env) (elref : Str → Res α) : Nat → Lookup α σ
         match tokenize o inner with
         | .error e => .error e
         | .ok [] => .ok (.list [], st)
-        | .ok ts => evaluate o (lookupN env elref n) elref (v :: ck) ts st
+        | .ok ts => evaluateAt o (lookupN env elref n) elref base (v :: ck) ts st
 
 /-- a chain of nested lookups visits distinct variables, so `env.length + 1` levels always suffice -/
-def lookup (env : Env) (elref : Str → Res α) : Lookup α σ := lookupN o env elref (env.length + 1)
+def lookup (env : Env) (elref : Str → Res α) : Nat → Lookup α σ := lookupN o env elref (env.length + 1)
 
 /-- `eval_str` -/
 def evalStr (env : Env) (elref : Str → Res α) (value : Str) (st : σ) : Res (Str × σ) :=
   match tokenize o value with
   | .error e => .error e
   | .ok ts =>
-    match evaluate o (lookup o env elref) elref [] ts st with
+    match evaluateAt o (lookup o env elref) elref 0 [] ts st with
     | .ok (v, st') => .ok (v.display o, st')
     | .error e => .error e
 
@@ -353,7 +383,7 @@ def evalList (env : Env) (elref : Str → Res α) (value : Str) (st : σ) : Res 
     match tokenize o v with
     | .error e => .error e
     | .ok ts =>
-      match evaluate o (lookup o env elref) elref [] ts st with
+      match evaluateAt o (lookup o env elref) elref 0 [] ts st with
       | .ok (r, st') => .ok (r.toStringVec o, st')
       | .error e => .error e
 
